@@ -170,7 +170,43 @@ def directed_admit_scripts():
     return out
 
 
-FAMILY = {"C06": ["admit", "add"], "C08": ["add", "repair"], "C14": ["notify"]}
+def directed_add_scripts():
+    """C08/C06: longer behaviours of the model than the exhaustive configs can afford: clocks arriving out of order
+    (a late branch with a LOWER clock after higher ones) and storage errors in the middle of the write function."""
+    def add(p, t, pl="none"):
+        return [dict(a="Offer", p=p, t=t, pl=pl), dict(a="ReadVerify", p=p, t=t, res="verified"), dict(a="LockWrite", p=p, t=t, res="written"),
+                dict(a="Commit", p=p, t=t), dict(a="AfterCommit", p=p, t=t)]
+    def late(p, t, stage):
+        return [dict(a="Offer", p=p, t=t, pl="none"), dict(a="ReadVerify", p=p, t=t, res="verified"), dict(a="LockWrite", p=p, t=t, res="error-" + stage),
+                dict(a="Rollback", p=p, t=t), dict(a="OnRollback", p=p, t=t)]
+    def commitfail(p, t):
+        return [dict(a="Offer", p=p, t=t, pl="none"), dict(a="ReadVerify", p=p, t=t, res="verified"), dict(a="LockWrite", p=p, t=t, res="written"),
+                dict(a="Rollback", p=p, t=t), dict(a="OnRollback", p=p, t=t)]
+    seq = lambda *xs: [st for x in xs for st in x]
+    out = []
+    out.append(dict(id="add-d-outoforder-1", steps=seq(*[add("p1", t) for t in ("r", "a", "e", "f", "b", "c", "d")])))
+    out.append(dict(id="add-d-outoforder-2", steps=seq(add("p1", "r"), add("p2", "a"), add("p1", "b"), add("p2", "c"), add("p1", "d"), add("p2", "e"), add("p1", "f"))))
+    out.append(dict(id="add-d-outoforder-fail", steps=seq(add("p1", "r"), add("p1", "a"), add("p1", "e"), add("p1", "f"), commitfail("p1", "b"), add("p1", "b"))))
+    for stage in ("tx", "iblt", "xor"):
+        out.append(dict(id="add-d-late-%s-retry" % stage, steps=seq(add("p1", "r"), add("p1", "a"), late("p1", "e", stage), add("p1", "e"), add("p1", "b"))))
+        out.append(dict(id="add-d-late-%s-root" % stage, steps=seq(late("p1", "r", stage), add("p1", "r"), late("p2", "a", stage), add("p1", "b"), add("p2", "a"))))
+        out.append(dict(id="add-d-late-%s-other" % stage, steps=seq(add("p1", "r"), add("p1", "a"), add("p1", "e"), late("p1", "f", stage), add("p2", "b"), late("p2", "c", stage), add("p1", "f"), add("p1", "c"))))
+    return out
+
+
+def directed_notify_scripts():
+    """C14: a payload written later for a transaction whose payload bytes another transaction already stored."""
+    def add(p, t, pl):
+        return [dict(a="Offer", p=p, t=t, pl=pl), dict(a="ReadVerify", p=p, t=t, res="verified"), dict(a="LockWrite", p=p, t=t, res="written"),
+                dict(a="Commit", p=p, t=t), dict(a="AfterCommit", p=p, t=t)]
+    out = []
+    out.append(dict(id="notify-d-shared-late-payload", steps=add("p1", "r", "none") + add("p1", "a", "good") + add("p1", "s", "none") + [dict(a="WritePayload", t="s")], restarts=1))
+    out.append(dict(id="notify-d-shared-late-payload-2", steps=add("p1", "r", "good") + add("p1", "s", "good") + add("p1", "a", "none") + [dict(a="WritePayload", t="a")], restarts=1))
+    out.append(dict(id="notify-d-late-payload", steps=add("p1", "r", "none") + add("p1", "a", "none") + [dict(a="WritePayload", t="a"), dict(a="WritePayload", t="r")], restarts=1))
+    return out
+
+
+FAMILY = {"C06": ["admit", "add"], "C08": ["add", "repair"], "C14": ["notify", "paylater", "dup"]}
 
 
 def run(prop, tier, seed, replay=None):
@@ -196,8 +232,8 @@ def run(prop, tier, seed, replay=None):
     n_wit_total = 0
     live = None
     for fam in FAMILY[prop]:
-        if fam == "repair":
-            check_cfg, gen_cfg = "Dag.repair.quick.cfg", "Dag.repair.gen.cfg"
+        if fam in ("repair", "paylater", "dup"):
+            check_cfg, gen_cfg = "Dag.%s.quick.cfg" % fam, "Dag.%s.gen.cfg" % fam
         else:
             check_cfg = "Dag.%s.%s.cfg" % (fam, "quick" if quick else "thorough")
             gen_cfg = "Dag.%s.gen%s.cfg" % (fam, "" if quick else ".thorough")
@@ -220,16 +256,20 @@ def run(prop, tier, seed, replay=None):
         tx, subs = cfg_constants(gen_cfg)
         uni = {k: UNIVERSE[k] for k in tx}
         scripts = to_scripts(chosen, fam + "-w") + to_scripts(sim, fam + "-s")
-        props = {"add": ["C06", "C08"], "admit": ["C06", "C08"], "repair": ["C08"], "notify": ["C14", "C06", "C08"]}[fam]
+        props = {"add": ["C06", "C08"], "admit": ["C06", "C08"], "repair": ["C08"], "notify": ["C14", "C06", "C08"],
+                 "paylater": ["C14", "C06", "C08"], "dup": ["C14", "C06", "C08"]}[fam]
         if fam == "notify":
-            scripts += budget_scripts()
-            uni = {k: UNIVERSE[k] for k in set(tx) | {"r", "a"}}
+            scripts += budget_scripts() + directed_notify_scripts()
+            uni = {k: UNIVERSE[k] for k in set(tx) | {"r", "a", "s"}}
+        if fam == "add":
+            scripts += directed_add_scripts()
+            uni = {k: UNIVERSE[k] for k in set(tx) | {"r", "a", "b", "c", "d", "e", "f"}}
         if fam == "admit":
             scripts += directed_admit_scripts()
         if prop == "C06":
             uni, scripts = concretise(scripts, uni, rnd)
         bases = [0, 510] if quick else [0, 510, 1022]
-        if fam in ("admit", "notify"):
+        if fam in ("admit", "notify", "paylater", "dup"):
             bases = [0] if quick else [0, 510]
         for base in bases:
             part = scripts if (base == 0 or not quick) else scripts[::3]
@@ -278,9 +318,14 @@ def run(prop, tier, seed, replay=None):
     inv_rej = [x for x in rej if x["kind"].startswith("invariant:")]
     for x in rej[:5]:
         rep.notes.append("DRIFT: trace %d rejected at event %s (%s)" % (x["index"], json.dumps(x["event"]), x["kind"]))
+        if os.environ.get("VERIF_DUMP_REJ"):
+            json.dump(dict(rejected=x, trace=traces[x["index"]]), open(os.path.join(os.environ["VERIF_DUMP_REJ"], "rej-%s-%d.json" % (prop, x["index"])), "w"), indent=1)
     for x in inv_rej:
         # a property invariant failed on the state reconstructed from a REAL execution
-        rep.violation(dict(kind="trace-" + x["kind"]), dict(property=prop, trace=traces[x["index"]], rejected=x))
+        sig = dict(kind="trace-" + x["kind"])
+        if x["kind"] == "invariant:FinishedNotRecalled" and any(e.get("dup") for e in traces[x["index"]][: x.get("at", 10 ** 9)]):
+            sig["cause"] = "duplicate-payload"  # the payload of a transaction was written a second time before the re-call
+        rep.violation(sig, dict(property=prop, trace=traces[x["index"]], rejected=x))
     if len(rej) > max(3, len(traces) // 10) and not rep.violations:
         rep.inconclusive.append("%d of %d recorded traces are not behaviours of the specification (spec/code drift)" % (len(rej), len(traces)))
 
